@@ -359,6 +359,11 @@ fn check_c01_on(m: &Model, ont: &Ontology) -> Check {
         expect(&format!("ancestors of {}", m.ids[t]), grp(h.all_parent_ids()), m.idset(&m.anc[t]))?;
         expect(&format!("parents of {}", m.ids[t]), grp(h.parent_ids()), m.idset(&m.parents[t]))?;
         expect(&format!("children of {}", m.ids[t]), grp(h.children_ids()), m.idset(&m.children[t]))?;
+        // the resolving iterators yield exactly those terms, each once
+        let it = |v: Vec<u32>| { let mut v = v; v.sort_unstable(); v };
+        expect(&format!("parents() of {}", m.ids[t]), it(h.parents().map(|x| x.id().as_u32()).collect()), m.idset(&m.parents[t]).into_iter().collect::<Vec<u32>>())?;
+        expect(&format!("children() of {}", m.ids[t]), it(h.children().map(|x| x.id().as_u32()).collect()), m.idset(&m.children[t]).into_iter().collect::<Vec<u32>>())?;
+        expect(&format!("all_parents() of {}", m.ids[t]), it(h.all_parents().map(|x| x.id().as_u32()).collect()), m.idset(&m.anc[t]).into_iter().collect::<Vec<u32>>())?;
         for u in 0..m.n {
             let hu = ont.hpo(m.ids[u]).unwrap();
             expect(&format!("{}.child_of({})", m.ids[t], m.ids[u]), h.child_of(&hu), m.anc[t].contains(&u))?;
@@ -403,9 +408,10 @@ fn check_c02_on(m: &Model, ont: &Ontology) -> Check {
         expect(&format!("omim diseases linked to {}", m.ids[t]), o, m.linked(1, t))?;
         expect(&format!("orpha diseases linked to {}", m.ids[t]), r, m.linked(2, t))?;
         // resolving iterators resolve every id
-        expect("genes() resolves", h.genes().count(), m.linked(0, t).len())?;
-        expect("omim_diseases() resolves", h.omim_diseases().count(), m.linked(1, t).len())?;
-        expect("orpha_diseases() resolves", h.orpha_diseases().count(), m.linked(2, t).len())?;
+        let it = |v: Vec<u32>| { let mut v = v; v.sort_unstable(); v };
+        expect("genes() resolves every linked gene once", it(h.genes().map(|g| g.id().as_u32()).collect()), m.linked(0, t).into_iter().collect::<Vec<u32>>())?;
+        expect("omim_diseases() resolves every linked disease once", it(h.omim_diseases().map(|g| g.id().as_u32()).collect()), m.linked(1, t).into_iter().collect::<Vec<u32>>())?;
+        expect("orpha_diseases() resolves every linked disease once", it(h.orpha_diseases().map(|g| g.id().as_u32()).collect()), m.linked(2, t).into_iter().collect::<Vec<u32>>())?;
     }
     expect("number of genes", ont.genes().count(), m.recs[0].len())?;
     expect("number of omim diseases", ont.omim_diseases().count(), m.recs[1].len())?;
@@ -1372,6 +1378,25 @@ pub fn check_c04(c: &Case) -> Check {
     let m = m0.observed(&ont);
     let kinds = [InformationContentKind::Gene, InformationContentKind::Omim, InformationContentKind::Orpha];
     for (ki, kind) in kinds.iter().enumerate() {
+        // the documented method names select the algorithm they name (any letter case)
+        let names: [(&str, Builtins); 16] = [
+            ("graphic", Builtins::GraphIc(*kind)), ("GraphIC", Builtins::GraphIc(*kind)), ("resnik", Builtins::Resnik(*kind)),
+            ("distance", Builtins::Distance(*kind)), ("dist", Builtins::Distance(*kind)),
+            ("informationcoefficient", Builtins::InformationCoefficient(*kind)), ("ic", Builtins::InformationCoefficient(*kind)),
+            ("jc", Builtins::Jc(*kind)), ("jc2", Builtins::Jc(*kind)), ("JC", Builtins::Jc(*kind)), ("lin", Builtins::Lin(*kind)),
+            ("relevance", Builtins::Relevance(*kind)), ("rel", Builtins::Relevance(*kind)), ("mutation", Builtins::Mutation(*kind)),
+            ("mut", Builtins::Mutation(*kind)), ("Resnik", Builtins::Resnik(*kind)),
+        ];
+        for (name, exp) in names {
+            match Builtins::new(name, *kind) {
+                Ok(b) if format!("{b:?}") == format!("{exp:?}") => {}
+                Ok(b) => return Err(format!("Builtins::new({name:?}, {kind:?}) selects {b:?}, documented: {exp:?}")),
+                Err(e) => return Err(format!("Builtins::new({name:?}, {kind:?}) fails: {e}")),
+            }
+        }
+        if Builtins::new("no such method", *kind).is_ok() {
+            return Err("Builtins::new accepts an unknown method name".into());
+        }
         for t in 0..m.n {
             for u in 0..m.n {
                 let a = ont.hpo(m.ids[t]).unwrap();
